@@ -16,7 +16,7 @@ macro_rules! chk {
 /// moduli for width n (as BigUint, all in [1, 2^(64n)))
 fn moduli(n: usize, ctx: &Ctx) -> Vec<BigUint> {
     let bits_ = 64 * n;
-    let mut v: Vec<BigUint> = (1u32..=if ctx.thorough() { 64 } else { 17 }).map(BigUint::from).collect();
+    let mut v: Vec<BigUint> = (1u32..=if ctx.thorough() { 257 } else { 17 }).map(BigUint::from).collect();
     v.extend([31u32, 32, 33, 63, 64].map(BigUint::from));
     v.push(pow2(bits_) - 1u32);
     v.push(pow2(bits_) - 2u32);
@@ -53,7 +53,9 @@ fn moduli(n: usize, ctx: &Ctx) -> Vec<BigUint> {
 
 /// residues for modulus p: ALL of [0,p) when p <= 64, otherwise a structured set closed under x -> p - x
 fn residues(p: &BigUint, n: usize, ctx: &Ctx) -> Vec<BigUint> {
-    if p.bits() <= 7 && *p <= BigUint::from(64u32) {
+    // ALL residues below this bound (64 quick, 257 thorough)
+    let full_bound = if ctx.thorough() { 257u32 } else { 64 };
+    if p.bits() <= 9 && *p <= BigUint::from(full_bound) {
         let pv = p.to_u64_digits().first().copied().unwrap_or(0);
         return (0..pv).map(BigUint::from).collect();
     }
